@@ -12,7 +12,7 @@ hsign parse=<0|1> chan=<0|1> send=<0|1> sf= af= st= nonces= prev=      (the hand
                                                                        messages/calls `ev=sign:ok|sign:fail|send:<n>|reject`)
 unstage
 ```
-Output: result class, for a successful sign the messages signed (`tx=<tid> sigs=key:idx:w:ht:out | key:idx:t:ht`),
+Output: result class, for a successful sign the messages signed (`tx=<tid> sigs=key:idx:w:ht:out | key:idx:t:ht:forOut`),
 for a successful finalize the account rows, then ` pend=<id.tid|-> db=<id.tid|->`.
 -/
 namespace Pool.C05
@@ -96,7 +96,7 @@ def insertByKey (x : Nat × String) : List (Nat × String) → List (Nat × Stri
   | y :: ys => if x.1 < y.1 then x :: y :: ys else y :: insertByKey x ys
 
 def fmtSig (σ : Sig) : Nat × String :=
-  if σ.msg.taproot then (σ.key, s!"{σ.key}:{σ.msg.idx}:t:{σ.msg.ht}")
+  if σ.msg.taproot then (σ.key, s!"{σ.key}:{σ.msg.idx}:t:{σ.msg.ht}:{σ.forOut}")
   else (σ.key, s!"{σ.key}:{σ.msg.idx}:w:{σ.msg.ht}:{σ.msg.spent.headD 0}")
 
 def fmtSigs (sigs : List Sig) : String :=
@@ -108,6 +108,18 @@ def fmtSignErr : SignErr → String
 
 def fmtAccts (as : List Acct) : String :=
   joinWith "," (as.map fun a => s!"{a.key}:{a.outpoint}:{a.version}")
+
+/-- staged rows in diff order: key:outpoint:version:out (out only for re-created accounts) -/
+def fmtRows (s : St) : String :=
+  match s.pending, s.db.staged with
+  | some b, some g =>
+    let rows := (b.diffs.zip g.rows).map fun (d, a) =>
+      let o := match d.newOutpoint with
+        | some _ => toString a.out
+        | none => "-"
+      s!"{a.key}:{a.outpoint}:{a.version}:{o}"
+    if rows.isEmpty then "-" else joinWith "," rows
+  | _, _ => "?"
 
 abbrev DrvSt := St
 def drvInit : DrvSt := initSt [] []
@@ -125,7 +137,7 @@ def drvStep (s : St) (args : List String) : St × String :=
     match parseBatch rest with
     | none => (s, "bad-op")
     | some b =>
-      let r := validate (·.vflag) s b
+      let r := validate (fun _ b => b.vflag) s b
       let out := match r.2 with
         | none => "ok"
         | some .verify => "err:verify"
@@ -140,9 +152,10 @@ def drvStep (s : St) (args : List String) : St × String :=
       pure (f, ns, pv)) with
     | none => (s, "bad-op")
     | some (f, ns, pv) =>
-      let r := step (·.vflag) s (.sign f ns pv)
+      let r := step (fun _ b => b.vflag) s (.sign f ns pv)
       let out := match r.2 with
-        | .sign (.ok sigs _) => s!"ok tx={(r.1.pending.map (·.tid)).getD 0} sigs={fmtSigs sigs}"
+        | .sign (.ok sigs _) =>
+          s!"ok tx={(r.1.pending.map (·.tid)).getD 0} sigs={fmtSigs sigs} rows={fmtRows r.1}"
         | .sign (.errSign e) => fmtSignErr e
         | .sign .errStore => "err:store"
         | .sign .panic => "panic"
@@ -163,11 +176,11 @@ def drvStep (s : St) (args : List String) : St × String :=
       let evs := h.trace.reverse.filterMap fun e => match e with
         | .batchSign true => some "sign:ok"
         | .batchSign false => some "sign:fail"
-        | .sendSign S _ => some s!"send:{S.length}"
+        | .sendSign S _ g => some s!"send:{S.length}@{match g with | some g => s!"{g.id}.{g.tid}" | none => "-"}"
         | .sendReject => some "reject"
         | _ => none
       let sent := h.trace.findSome? fun e => match e with
-        | .sendSign S _ => some S
+        | .sendSign S _ _ => some S
         | _ => none
       let sigPart := match sent with
         | some S => s!" tx={(h.st.pending.map Batch.tid).getD 0} sigs={fmtSigs S}"
